@@ -80,9 +80,11 @@ class C03Scenario(ChangeScenario):
                     if k == 'call' and p.get('uid') == uid0 and p.get('reason') in ('create', 'update', 'resume'):
                         last_calls[p['id']] = p
                 ids_left = {h['id'] for h in self.params['handlers'] if any(h['id'].replace('/', '.') in key for key in left)}
+                # (siblings that already succeeded on the reverted state keep their records too: the cycle never closes)
+                # (... and so do siblings that were not even started yet: kopf writes a record for every handler of the cycle)
                 reverted = bool(ids_left) and last_handled(obj) == essence_ref(obj) and all(
-                    i in last_calls and last_calls[i]['outcome'].split(',')[0] not in ('ok', 'perm') and essence_ref(last_calls[i]['raw']) != essence_ref(obj)
-                    for i in ids_left)
+                    i not in last_calls or essence_ref(last_calls[i]['raw']) != essence_ref(obj) for i in ids_left) and any(
+                    i in last_calls and last_calls[i]['outcome'].split(',')[0] not in ('ok', 'perm') for i in ids_left)
                 out.append(self.viol(env, 'progress-left', f"object {name} still carries progress records {left}", clause='no-progress',
                                      pattern='change-reverted-between-retries' if reverted else 'other'))
             E = essence_ref(obj)
